@@ -235,6 +235,22 @@ def run_c(binary, conf, opgen, N, errpath):
     return p, dump, c_op
 
 
+def settle_exactfit(op, res):
+    """exact-fit reads (rk 3): the op as recorded carries the bytes the kernel really handed out (the model has no ring layout)"""
+    took3 = {}
+    for l in res:
+        if l.startswith("Y read "): t = l.split(); took3[int(t[2])] = int(t[3])
+    t = op.split()
+    for i in range(5, len(t)):
+        f = t[i].split(":")
+        if len(f) > 4 and f[2] == '3':
+            n3 = max(0, took3.get(int(f[0]), 0)); raw = bytes.fromhex(f[3]) if f[3] != '-' else b''
+            f[2] = '0'; f[3] = hx(raw[:n3])
+            if not raw[:n3]: f[1] = str(int(f[1]) & ~1)
+            t[i] = ":".join(f)
+    return " ".join(t)
+
+
 def simulate(seed, N, profile=None, conf='mixp', fixed_ops=None, world=None):
     """returns dict(dump, ops, couts (C side, per op), xs (regexec records per op), stats, died, stderr)"""
     binary = build()
@@ -367,19 +383,7 @@ def simulate(seed, N, profile=None, conf='mixp', fixed_ops=None, world=None):
                 qop = "Q" + op[1:len(op) - len(hup)].replace(':-2', ':%d' % (1 << 20)); stats['signal passes with descriptors ready' if parts or acc else 'signal passes with nothing else ready'] += 1
                 break
         res = c_op(op)
-        if ':3:' in op and fixed_ops is None and it > 0:
-            # exact-fit reads: record the op with the bytes the kernel really handed out (the model has no ring layout)
-            took3 = {}
-            for l in res:
-                if l.startswith("Y read "): t = l.split(); took3[int(t[2])] = int(t[3])
-            t = op.split()
-            for i in range(5, len(t)):
-                f = t[i].split(":")
-                if len(f) > 4 and f[2] == '3':
-                    n3 = max(0, took3.get(int(f[0]), 0)); raw = bytes.fromhex(f[3]) if f[3] != '-' else b''
-                    f[2] = '0'; f[3] = hx(raw[:n3]); t[i] = ":".join(f)
-                    if not raw[:n3]: f[1] = str(int(f[1]) & ~1); t[i] = ":".join(f)
-            op = " ".join(t)
+        if ':3:' in op and fixed_ops is None and it > 0: op = settle_exactfit(op, res)
         if ':-2' in op and fixed_ops is None:
             # "first piece only" capacities: record the op with the byte count the kernel really took (same behaviour on replay
             # and in the model, which has no ring layout)
@@ -612,6 +616,7 @@ def canon(ls):
 
 def death_class(stderr):
     if 'HUNG: no answer' in stderr: return 'hang'
+    if 'SIGPIPE: write to a closed peer' in stderr: return 'killed by SIGPIPE (a write to a closed peer with the default disposition)'
     if 'AddressSanitizer' in stderr:
         import re
         m = re.search(r'ERROR: AddressSanitizer: (\S+)', stderr)
@@ -622,7 +627,9 @@ def death_class(stderr):
         import re
         m = re.search(r"(\w+\.c):\d+: (\w+): Assertion [`'](.*?)' failed", stderr)
         return 'assert:%s:%s:%s' % (m.group(1), m.group(2), m.group(3)) if m else 'assert'
-    return 'exit'
+    # err_exit: the last line the daemon wrote says why
+    last = [l for l in stderr.strip().split('\n') if l.strip()][-1:] or ['']
+    return 'exit' + (': ' + last[0][:120] if last[0] else '')
 
 
 def compare(sim, chunks):
@@ -743,6 +750,9 @@ def simulate_sched(seed, N, sickB, conf='mixp'):
                                 data = pending[di][:n]; pending[di] = pending[di][n:]
                                 if RA.random() < 0.3:
                                     k = RA.randrange(len(data) + 1); data = data[:k] + RA.choice([b"\xff\xf1", b"\xff\xfd\x03", b"\xff\xf1\xff\xf1"]) + data[k:]
+                            elif RA.random() < 0.05:
+                                # the kernel holds exactly what the first read asks for (rk 3): harmless on a non-blocking descriptor
+                                data = (pending[di] + b"#" * 4000)[:4000]; pending[di] = pending[di][4000:]; rk = 3
                             else:
                                 data = pending[di]; pending[di] = b""
                             rev |= 1
@@ -774,7 +784,9 @@ def simulate_sched(seed, N, sickB, conf='mixp'):
                 if (rev & 1) and rk == 0 and not data: rev &= ~1
                 if rev: parts.append("%d:%d:%d:%s:%d" % (dfd[di], rev, rk, hx(data), 1 << 20))
             op = "P %d %d %d %d" % (s['now'], s['acc'], con, soe) + "".join(" " + x for x in parts)
-        res = c_op(op); ops.append(op)
+        res = c_op(op)
+        if ':3:' in op: op = settle_exactfit(op, res)
+        ops.append(op)
         xs = [l for l in res if l.startswith("X ")]; obs = [l for l in res if not l.startswith("X ")]
         xsl.append(xs); couts.append(obs)
         if "DIED" in res:
